@@ -622,6 +622,21 @@ func JSON[T any](raw json.RawMessage) (T, error) {
 
 // Catch runs an oracle and turns a panic of the code under test into a
 // failure with signature "panic".
+// CatchBounded is Catch for code that is called synchronously and is expected
+// to return at once: if f has not returned within d (a generous bound: the
+// calls take microseconds), the case fails with signature "does-not-return".
+// The goroutine running f is left behind; cases do not share state with it.
+func CatchBounded(d time.Duration, f func() *Failure) *Failure {
+	done := make(chan *Failure, 1)
+	go func() { done <- Catch(f) }()
+	select {
+	case r := <-done:
+		return r
+	case <-time.After(d):
+		return Failf("does-not-return", "the operations of this case did not return within %v", d)
+	}
+}
+
 // Hang is what a harness helper panics with when the code under test did not
 // return within its (generous) deadline; Catch turns it into a failure of its
 // own kind.
